@@ -225,6 +225,11 @@ func timeoutOp(c *Ctx, op string) {
 				}
 				return "rejected " + name + " " + ranStr
 			}
+			// independent statement of "malformed" for Connect: the value is a decimal number
+			// (optionally signed) - nothing else, nothing after it
+			if !grpc && probe.ran && s != "" && !isDecimalNumber(s) {
+				c.Fail("tmo-malformed-ran", op, fmt.Sprintf("%q", s), "user code ran although Connect-Timeout-Ms is not a decimal number")
+			}
 			if !probe.ran {
 				return "norun-ok"
 			}
@@ -252,6 +257,13 @@ func timeoutOp(c *Ctx, op string) {
 	}
 	c.Count(f[0] + ":" + strings.Fields(ans)[0])
 	c.Emit(op, ans, true)
+}
+
+func isDecimalNumber(s string) bool {
+	if s != "" && (s[0] == '+' || s[0] == '-') {
+		s = s[1:]
+	}
+	return isDigits(s)
 }
 
 func sign(x int64) int64 {
